@@ -216,7 +216,7 @@ fn expect_for(model: &NodeModel, q: &Msg) -> Expect {
 }
 
 
-/// Compare the content of one reply with the expectation taken from the model (C13 a-d, C16(4)).
+/// Compare the content of one reply with the expectation taken from the model (C13 a-d).
 pub fn judge_reply(who: &str, exp: &Expect, q: &Msg, rep: &Msg) -> Vec<Finding> {
     let mut out = Vec::new();
     let mut push = |prop: &'static str, sig: String, detail: String| out.push(Finding { prop, sig, detail });
@@ -234,11 +234,10 @@ pub fn judge_reply(who: &str, exp: &Expect, q: &Msg, rep: &Msg) -> Vec<Finding> 
         if !exp.must.contains(&k) && !exp.may.contains(&k) {
             let registered = exp.ttls.contains_key(&k);
             push("C13", if registered { "answer-not-matching".into() } else { "answer-not-registered".into() }, format!("{}: reply to query {} ({}) contains {} type {} class {} which {}", who, exp.id, qtext, name_to_string(&k.owner), k.rtype, k.class, if registered { "matches no question" } else { "is not a registered authoritative record" }));
-        } else if let Some(ttls) = exp.ttls.get(&k) {
-            if !ttls.contains(&a.ttl) || a.cache_flush() {
-                push("C16", "reply-record-fields".into(), format!("{}: reply record {} type {} carries ttl {} / cache-flush {} but was registered with ttl(s) {:?}", who, name_to_string(&k.owner), k.rtype, a.ttl, a.cache_flush(), ttls));
-            }
         }
+        // TTL and cache-flush bit of a reply record are deliberately not judged: neither C13 nor
+        // C16 constrains them (`ResourceRecord`'s own equality ignores both), and an
+        // implementation may set the flush bit or send a remaining TTL (RFC 6762 §10).
         if k.rtype == t::SRV {
             if let Some(tg) = srv_target(&k.rdata) {
                 srv_targets.push(tg);
